@@ -20,10 +20,12 @@ PREDEFINED_CONSTANTS: Dict[str, str] =  {
     
 }
 
+# QUOTE has to be the first one: the other replacements insert quotes that
+# must not be taken for quote characters of the string
 REPLACEMENT_CONSTANTS: Dict[str, str] =  {
+    'QUOTE': "\"",
     'BACKSPACE': "\\x08",
     'ENTER': "\\x03",
-    'QUOTE': "\"",
     'RETURN': "\\r",
     'TAB': "\\t"
 }
